@@ -4,7 +4,8 @@
    model's (agree), the implementation's observation satisfies the Spec. *)
 From Boltons Require Import Lib.Prelude Lib.C03_Syntax Lib.C03_Conc Model.C03_Model Spec.C03_Spec
      Proofs.C03_Link1 Proofs.C03_Link2 Proofs.C03_Link4 Proofs.C03_Link3
-     Proofs.C03_SpecLink Proofs.C03_SpecLink2 Proofs.C03_SpecLink3 Proofs.C03_Complete Proofs.C03_FinalOk Proofs.C03_Probe.
+     Proofs.C03_SpecLink Proofs.C03_SpecLink2 Proofs.C03_SpecLink3 Proofs.C03_Complete Proofs.C03_CompleteCalls
+     Proofs.C03_FinalOk Proofs.C03_Probe.
 From Boltons Require Import Gen.C03_Gen Check.C03_Check.
 From Boltons Require Lib.C02_Syntax Model.C02_Model.
 
@@ -21,6 +22,13 @@ Proof. revert i j. induction l; intros [|i] [|j] H; simpl; auto; try congruence.
 Lemma nth_upd_length {X} (l : list X) i f : length (nth_upd l i f) = length l.
 Proof. revert i. induction l; intros [|i]; simpl; auto. Qed.
 
+Lemma m_calls_r_calls cf s m o : stands_for cf s m -> m_calls cf s o = r_calls (rc_of cf) (M2.ring m) o.
+Proof.
+  intro SF. pose proof (stands_for_store _ _ _ SF) as ES. destruct SF as [[_ _ SAME _ _ _] _].
+  unfold m_calls, r_calls, r_lookup. rewrite ES. simpl r_miss.
+  destruct o; try reflexivity; now rewrite SAME.
+Qed.
+
 Lemma model_order_accepted tb cf : 1 <= cf_max cf -> forall order s ths m sf thsf,
   stands_for cf s m -> (forall t, Forall wf_op (th_ops ths t)) ->
   model_order tb cf s ths order = Some (sf, thsf) ->
@@ -30,31 +38,38 @@ Lemma model_order_accepted tb cf : 1 <= cf_max cf -> forall order s ths m sf ths
     /\ length thsf = length ths
     /\ (forall e, In e tr -> fst (fst e) < length ths)
     /\ (forall t, th_ops ths t = ops_of t tr ++ th_ops thsf t)
-    /\ (forall t, th_res thsf t = th_res ths t ++ results_of t tr).
+    /\ (forall t, th_res thsf t = th_res ths t ++ results_of t tr)
+    /\ model_order_calls tb cf s ths order = replay_calls (rc_of cf) (M2.ring m) tr.
 Proof.
   intros Hmax. induction order as [|[t i] r IH]; intros s ths m sf thsf SF WF MO; simpl in MO.
   - inversion MO; subst. exists m, []. split; [exact SF|]. split; [reflexivity|]. split; [reflexivity|].
-    split; [intros e []|]. split; intro t; unfold ops_of, results_of; simpl; now rewrite ?app_nil_r.
+    split; [intros e []|]. split; [|split]; try (intro t; unfold ops_of, results_of; simpl; now rewrite ?app_nil_r).
+    reflexivity.
   - destruct (nth_error ths t) as [[[|o todo] done]|] eqn:NE; try discriminate.
-    destruct (Nat.eqb i (length done)); [|discriminate].
+    destruct (Nat.eqb i (length done)) eqn:EI; [|discriminate].
     assert (Ht : t < length ths) by (apply nth_error_Some; congruence).
     assert (NT : nth t ths ([], []) = (o :: todo, done)) by (apply nth_error_nth; exact NE).
     assert (Wo : wf_op o /\ Forall wf_op todo).
     { specialize (WF t). unfold th_ops in WF. rewrite NT in WF. simpl in WF. inversion WF; auto. }
     pose proof (op_accepted_by_c03_spec tb cf s m o Hmax (proj1 Wo) SF) as OA.
+    assert (CALLS : model_order_calls tb cf s ths ((t, i) :: r)
+                    = let '(s', x) := run_op tb cf s o in
+                      m_calls cf s o + model_order_calls tb cf s' (nth_upd ths t (fun _ => (todo, done ++ [x]))) r).
+    { simpl. rewrite NE, EI. reflexivity. }
     destruct (run_op tb cf s o) as [s' x]. destruct OA as [m' [SF' A]].
     set (ths' := nth_upd ths t (fun _ => (todo, done ++ [x]))) in *.
     assert (WF' : forall u, Forall wf_op (th_ops ths' u)).
     { intro u. unfold th_ops, ths'. destruct (Nat.eq_dec u t) as [->|NEu].
       - rewrite nth_nth_upd_same by exact Ht. exact (proj2 Wo).
       - rewrite nth_nth_upd_other by congruence. apply WF. }
-    destruct (IH s' ths' m' sf thsf SF' WF' MO) as [mf [tr [SFf [RP [LN [B [PO PR]]]]]]].
+    destruct (IH s' ths' m' sf thsf SF' WF' MO) as [mf [tr [SFf [RP [LN [B [PO [PR PC]]]]]]]].
     exists mf, ((t, o, x) :: tr).
     split; [exact SFf|]. split; [simpl; rewrite A; exact RP|].
     split; [rewrite LN; apply nth_upd_length|].
     split.
     { intros e [<-|He]; [exact Ht|]. specialize (B e He). unfold ths' in B. now rewrite nth_upd_length in B. }
-    split; intro u; specialize (PO u); specialize (PR u); unfold th_ops, th_res, ths', ops_of, results_of in *; simpl.
+    split; [|split]; [| |rewrite CALLS, PC, (m_calls_r_calls cf s m o SF); simpl; fold (rc_of cf); rewrite A; reflexivity];
+      intro u; specialize (PO u); specialize (PR u); unfold th_ops, th_res, ths', ops_of, results_of in *; simpl.
     + destruct (Nat.eq_dec u t) as [->|NEu].
       * rewrite Nat.eqb_refl. rewrite nth_nth_upd_same in PO by exact Ht. rewrite NT. simpl in *. now rewrite PO.
       * rewrite nth_nth_upd_other in PO by congruence.
@@ -155,7 +170,7 @@ Section Assembly.
       - rewrite Forall_forall in WFp. apply WFp. apply nth_In. exact Lt.
       - rewrite nth_overflow by exact Ge. constructor. }
     destruct (model_order_accepted tb cf Hmax order s0 ths0 m0 s ths SF0 WF0 EM)
-      as [mf [tr [SFf [RP [LN [B [PO PR]]]]]]].
+      as [mf [tr [SFf [RP [LN [B [PO [PR PC]]]]]]]].
     (* every thread finished *)
     assert (DONE : forall t, th_ops ths t = []).
     { intro t. unfold th_ops. destruct (Nat.lt_ge_cases t (length ths)) as [Lt|Ge].
@@ -209,6 +224,75 @@ Section Assembly.
     destruct (find_serial (total_ops (ca_progs c)) (rc_of cf) (r_init (rc_of cf) (ca_init c)) z
                           (final_ok (rc_of cf) o)); [reflexivity|congruence].
   Qed.
+
+  Theorem model_outcome_calls_ok tb (c : c03_case) order o :
+    wf_case c -> model_outcome tb c order = Some o ->
+    calls_ok (case_rcfg c) (ca_init c) (ca_progs c) o (model_calls tb c order) = true.
+  Proof.
+    intros [Hmax [WFp [SMp SMi]]] MO. unfold model_outcome in MO.
+    set (cf := case_cfg c) in *.
+    change (case_rcfg c) with (rc_of cf).
+    destruct (init_link tb cf Hmax (ca_init c) shared_init M2.empty_cache (stands_for_init cf)) as [m0 [SF0 R0]].
+    set (s0 := run_ops tb cf shared_init (init_ops (ca_init c))) in *.
+    set (ths0 := map (fun p : list op => (p, @nil rv)) (ca_progs c)) in *.
+    destruct (model_order tb cf s0 ths0 order) as [[s ths]|] eqn:EM; [|discriminate MO].
+    match type of MO with (if ?b then _ else _) = _ => destruct b eqn:FB end; [|discriminate MO].
+    assert (WF0 : forall t, Forall wf_op (th_ops ths0 t)).
+    { intro t. unfold th_ops, ths0. rewrite nth_ths0. simpl.
+      destruct (Nat.lt_ge_cases t (length (ca_progs c))) as [Lt|Ge].
+      - rewrite Forall_forall in WFp. apply WFp. apply nth_In. exact Lt.
+      - rewrite nth_overflow by exact Ge. constructor. }
+    destruct (model_order_accepted tb cf Hmax order s0 ths0 m0 s ths SF0 WF0 EM)
+      as [mf [tr [SFf [RP [LN [B [PO [PR PC]]]]]]]].
+    (* every thread finished *)
+    assert (DONE : forall t, th_ops ths t = []).
+    { intro t. unfold th_ops. destruct (Nat.lt_ge_cases t (length ths)) as [Lt|Ge].
+      - rewrite forallb_forall in FB. specialize (FB (nth t ths ([], [])) (nth_In _ _ Lt)).
+        destruct (fst (nth t ths ([], []))); [reflexivity|discriminate].
+      - now rewrite nth_overflow. }
+    assert (LP : length ths0 = length (ca_progs c)) by (unfold ths0; apply map_length).
+    assert (OPS : forall t, t < length (ca_progs c) -> nth t (ca_progs c) [] = ops_of t tr).
+    { intros t Lt. specialize (PO t). rewrite DONE, app_nil_r in PO. rewrite <- PO.
+      unfold th_ops, ths0. now rewrite nth_ths0. }
+    assert (SMf : small (M2.ring mf)).
+    { apply (replay_small (rc_of cf) tr (M2.ring m0) (M2.ring mf) RP).
+      - rewrite R0. intros k Hk. destruct (keys_fold_insert _ _ _ _ Hk) as [[]|H].
+        apply in_map_iff in H as [p [<- Hp]]. now apply SMi.
+      - intros [[t o'] x] He. simpl.
+        assert (Lt : t < length (ca_progs c)) by (pose proof (B _ He) as Be; unfold ths0 in Be; rewrite map_length in Be; exact Be).
+        pose proof (in_ops_of t o' x tr He) as Ho. rewrite <- (OPS t Lt) in Ho.
+        rewrite Forall_forall in SMp. specialize (SMp _ (nth_In (ca_progs c) [] Lt)). rewrite Forall_forall in SMp. now apply SMp. }
+    rewrite (probe_correct tb cf s mf Hmax SFf SMf) in MO. inversion MO; subst o; clear MO.
+    assert (RES : forall t, t < length (ca_progs c) -> nth t (map snd ths) [] = results_of t tr).
+    { intros t Lt. specialize (PR t). unfold th_res, ths0 in PR. rewrite nth_ths0 in PR.
+      simpl in PR. rewrite <- PR. change (@nil rv) with (snd (@nil op, @nil rv)). now rewrite map_nth. }
+    destruct (zip_ok (ca_progs c) (map snd ths)) as [z [EZ [LZ [NZ SZ]]]].
+    { rewrite map_length. transitivity (length ths0); [symmetry; exact LP|symmetry; exact LN]. }
+    { intros i Hi. rewrite (OPS i Hi), (RES i Hi). apply ops_results_length. }
+    unfold calls_ok. simpl o_status. simpl o_results. rewrite EZ.
+    destruct (final_items_ok cf s mf SFf) as [F1 [F2 [F3 F4]]].
+    set (o := mkOutcome Done (map snd ths) (view_items s) (view_len s)
+                        (expected_probe (rc_of cf) (M2.ring mf)) None (cf_max cf)).
+    assert (FIN : final_ok (rc_of cf) o (M2.ring mf) = true).
+    { unfold final_ok, o. simpl. rewrite F1, F2, F3. simpl.
+      rewrite Nat.eqb_refl.
+      assert (LE : list_eqb (list_eqb Nat.eqb) (expected_probe (rc_of cf) (M2.ring mf))
+                           (expected_probe (rc_of cf) (M2.ring mf)) = true).
+      { apply (proj2 (list_eqb_eq _ (fun a b => list_eqb_eq Nat.eqb Nat.eqb_eq a b) _ _)). reflexivity. }
+      rewrite LE. reflexivity. }
+    assert (MC : model_calls tb c order = replay_calls (rc_of cf) (M2.ring m0) tr).
+    { unfold model_calls. fold cf. fold s0. fold ths0. exact PC. }
+    set (fin := fun (s1 : rcache) (n : nat) => final_ok (rc_of cf) o s1 && Nat.eqb n (model_calls tb c order)).
+    assert (ACC : accepted_c (rc_of cf) fin (r_init (rc_of cf) (ca_init c)) 0 z).
+    { assert (E0 : r_init (rc_of cf) (ca_init c) = M2.ring m0) by (rewrite R0; reflexivity).
+      apply (trace_to_accepted_c (rc_of cf) fin tr _ 0 (M2.ring mf) z).
+      - rewrite E0. exact RP.
+      - unfold fin. rewrite FIN. simpl. rewrite E0, MC. apply Nat.eqb_refl.
+      - intros e He. pose proof (B e He) as Be. unfold ths0 in Be. rewrite map_length in Be. rewrite <- LZ in Be. exact Be.
+      - intros t Ht0. assert (Ht : t < length (ca_progs c)) by (rewrite <- LZ; exact Ht0).
+        etransitivity; [exact (NZ t Ht)|]. rewrite (OPS t Ht), (RES t Ht). reflexivity. }
+    exact (find_serial_calls_complete (rc_of cf) fin _ 0 z ACC (total_ops (ca_progs c)) SZ).
+  Qed.
 End Assembly.
 
 (* ---- boolean equalities are equalities ------------------------------------------------------------- *)
@@ -257,8 +341,20 @@ Theorem agree_implies_holds (c : c03_case) (r : c03_run) :
 Proof.
   intros WF A. unfold run_agree in A.
   destruct (model_outcome gen_table c (ru_order r)) as [o|] eqn:MO; [|discriminate].
+  apply andb_true_iff in A as [A _].
   apply outcome_eqb_eq in A. unfold run_holds_core. rewrite <- A.
   apply (model_outcome_holds gen_table c (ru_order r) o WF MO).
+Qed.
+
+(* ... and the on_miss call count the model computes is acceptable too: agree implies the whole holds bit *)
+Theorem agree_implies_holds_full (c : c03_case) (r : c03_run) :
+  wf_case c -> run_agree c r = true -> run_holds c r = true.
+Proof.
+  intros WF A. unfold run_holds. rewrite (agree_implies_holds c r WF A). simpl.
+  unfold run_agree in A.
+  destruct (model_outcome gen_table c (ru_order r)) as [o|] eqn:MO; [|discriminate].
+  apply andb_true_iff in A as [A1 A2]. apply outcome_eqb_eq in A1. apply Nat.eqb_eq in A2.
+  rewrite <- A1, <- A2. apply (model_outcome_calls_ok gen_table c (ru_order r) o WF MO).
 Qed.
 
 Lemma nodupb_ok l : nodupb l = true -> NoDup l.
@@ -285,8 +381,8 @@ Qed.
 
 (* what the check computes: the agree bit implies the holds bit *)
 Theorem verdict_agree_implies_holds (c : c03_case) :
-  fst (fst (c03_verdict c)) = true -> forallb (run_holds_core c) (ca_runs c) = true.
+  fst (fst (c03_verdict c)) = true -> snd (fst (c03_verdict c)) = true.
 Proof.
   unfold c03_verdict. simpl. rewrite andb_true_iff. intros [W A]. apply wf_caseb_ok in W.
-  rewrite forallb_forall in *. intros r Hr. apply agree_implies_holds; auto.
+  rewrite forallb_forall in *. intros r Hr. apply agree_implies_holds_full; auto.
 Qed.
